@@ -89,6 +89,9 @@ def _ops(xs, reduced=False):
                     out[INT].append(f'({l} {op} {r})')
     for l in num:
         out[INT].append(f'(-{l})')
+    if not reduced:
+        for l in num:
+            out[INT].append(f'(+{l})')      # unary plus is not the identity on a byte: it widens
     for l in xs[BYTE] + xs[BOOL]:
         out[INT].append(f'({l} is int)')
     for l in xs[INT] + ([] if reduced else xs[BOOL]):
@@ -375,7 +378,7 @@ int cnt(const int[] a) { return a.length; }
 int cnt(const int[] a, int from) { return a.length - from; }
 empty @is_you(int n, byte b) {
     int[] m = [1, 2, 3]; byte[] data = ['d', 'a'];
-    writeln(area(b)); writeln(area(b, 7)); writeln(area(n, b)); writeln(area(7)); writeln(area(b + 1, b));
+    log(); writeln(+b); writeln(-b); writeln(area(+b)); writeln(area(b)); writeln(area(b, 7)); writeln(area(n, b)); writeln(area(7)); writeln(area(b + 1, b));
     log("m"); log(data, ", "); log("s" is byte[], "!"); log(); log(['x', b], "?"); writeln();
     writeln(cnt(m)); writeln(cnt(m, b)); writeln(cnt([n, b], 1)); writeln(cnt([b]));
 }""", [['3', '6'], ['-2', '255']]),
@@ -397,7 +400,7 @@ empty o5(byte x, int y) { write("bi"); }
 empty o5(int x, int y) { write("ii"); }
 empty @is_you(int a, byte b) {
     int[] m = [1, 2]; const int[] k = [3]; string s = "s";
-    o(a); o(b); o(a > 0); o(s); o(1); o('c'); o(b + 1); o(m); o(k); o([1, 2]); o(["a"][0]); o(s is byte[]);
+    o(a); o(b); o(a > 0); o(s); o(1); o('c'); o(b + 1); o(m); o(k); o([1, 2]); o(["a"][0]); o(s is byte[]); o(+b); o(-b); o(+'c'); o(+a); o3(+b);
     writeln();
     o2(m); o2(k); o2([a]); o3(5); o3(b); o3(a); o3('x'); o3(b + b); o4(s); o4("lit"); o4(['a', 'b']);
     writeln();
@@ -488,7 +491,7 @@ empty @again(const int[] xs, byte b, int n) {
 }
 empty @is_you(int n, const int[] xs, byte tag) {
     calls += 1; int[] loc = [n, calls, 7];
-    all_is_win(calls); writeln(half_up(n + 4)); sleep(calls * 300); debug(); progress(); sleep(n + 1);
+    all_is_win(calls); writeln(half_up(n + 4)); sleep(calls * 300); debug(); progress(); sleep((n + 40) % 7);
     write(tag); write(' '); write(n); write(' '); write(xs.length); for (int k = 0; k < xs.length; k += 1) { write(':'); write(xs[k]); } writeln();
     if (n > 0) { @is_you(n - 1, xs, tag); }
     @again(xs, tag, n);
